@@ -471,6 +471,13 @@ class Tdf:
         except StopIteration:
             raise ValueError(f"No block of type {type} found")
 
+        # the entries behind the removed one are rewritten one slot up: make sure
+        # they can be serialised before anything is changed (an entry written by
+        # other software may carry a comment that fills its field without
+        # terminator, which can't be written back)
+        for entry in self.entries[oldEntryPos + 1 :]:
+            entry._write(BytesIO())
+
         # delete entry
         self.entries.remove(oldEntry)
         self.handler.seek(64 + 288 * oldEntryPos, 0)
